@@ -322,10 +322,117 @@ def r18c(ctx):
         ctx.report("R18c", g, g.node, f"slices {sl} len {lens}", "hex2rgb does not parse exactly the three 2-digit slices of a 7-character '#RRGGBB' string in R,G,B order")
 
 
+def r18d(ctx):
+    """Duration.encode: the magnitude that is split into H/M/S is |total microseconds|, and the sign is that of the total.
+
+    A timedelta is normalised as days (any sign) + seconds in [0, 86400) + microseconds in [0, 10^6): its value is
+    T = 86400·10^6·days + 10^6·seconds + microseconds, and T < 0 iff days < 0.  A negative value is therefore encoded from -T — the
+    negation of the whole sum — and never from a field-wise negation (−days with +seconds).  The two arms of the sign test are evaluated
+    to affine forms over (days, seconds, microseconds) and compared with ±T.
+    """
+    from .c01 import Aff, sym
+    repo = ctx.repo
+    ctx.rule("R18d", "Duration.encode splits |T| with T = 86400e6*days + 1e6*seconds + microseconds, '-' exactly when days < 0", floor=2)
+    f = repo.func("Duration.encode")
+    par = f.node.args.args[0].arg if f.node.args.args else "value"
+    FIELDS = {"days": "D", "seconds": "S", "microseconds": "U"}
+    T = Aff({"D": 86400 * 10 ** 6, "S": 10 ** 6, "U": 1})
+
+    def ev(e, env):
+        if isinstance(e, ast.Constant) and isinstance(e.value, int) and not isinstance(e.value, bool):
+            return Aff(c=e.value)
+        if isinstance(e, ast.Attribute) and isinstance(e.value, ast.Name) and e.value.id == par and e.attr in FIELDS:
+            return sym(FIELDS[e.attr])
+        if isinstance(e, ast.Name):
+            return env.get(e.id)
+        if isinstance(e, ast.UnaryOp) and isinstance(e.op, ast.USub):
+            a = ev(e.operand, env)
+            return None if a is None else -a
+        if isinstance(e, ast.BinOp):
+            a, b = ev(e.left, env), ev(e.right, env)
+            if a is None or b is None:
+                return None
+            if isinstance(e.op, ast.Add):
+                return a + b
+            if isinstance(e.op, ast.Sub):
+                return a - b
+            if isinstance(e.op, ast.Mult):
+                if not a.d:
+                    return Aff({k: v * a.c for k, v in b.d.items()}, b.c * a.c)
+                if not b.d:
+                    return Aff({k: v * b.c for k, v in a.d.items()}, a.c * b.c)
+        return None
+
+    def neg_test(t, env):
+        """True if `t` is `days < 0` (on the days field, or on the total T: T < 0 iff days < 0), False for `>= 0`, None otherwise."""
+        if isinstance(t, ast.Compare) and len(t.ops) == 1:
+            l, r = ev(t.left, env), ev(t.comparators[0], env)
+            if l is not None and r is not None and (l == sym("D") or l == T) and not r.d and r.c == 0:
+                if isinstance(t.ops[0], ast.Lt):
+                    return True
+                if isinstance(t.ops[0], ast.GtE):
+                    return False
+            if l is not None and r is not None and (r == sym("D") or r == T) and not l.d and l.c == 0:
+                if isinstance(t.ops[0], ast.Gt):
+                    return True
+                if isinstance(t.ops[0], ast.LtE):
+                    return False
+        return None
+
+    # the variable that is split: first `X / const` after the sign handling
+    body = body_no_doc(f.node)
+    split = [s_ for s_ in body if isinstance(s_, ast.Assign) and isinstance(s_.value, ast.BinOp) and isinstance(s_.value.op, (ast.Div, ast.FloorDiv)) and isinstance(s_.value.left, ast.Name)]
+    if not split:
+        raise AnalysisError("R18d: Duration.encode no longer splits a total by division")
+    mag = split[0].value.left.id
+    upto = body.index(split[0])
+    results = {}
+    forks = 0
+
+    def run_path(stmts, env, negative):
+        nonlocal forks
+        for st in stmts:
+            if isinstance(st, ast.Assign) and len(st.targets) == 1 and isinstance(st.targets[0], ast.Name):
+                v = ev(st.value, env)
+                if v is not None:
+                    env[st.targets[0].id] = v
+                elif isinstance(st.value, ast.Constant) and isinstance(st.value.value, str):
+                    env[st.targets[0].id] = st.value.value
+                else:
+                    env.pop(st.targets[0].id, None)
+            elif isinstance(st, ast.If):
+                nt = neg_test(st.test, env)
+                if nt is None:
+                    if any(isinstance(x, ast.Raise) for x in st.body):
+                        continue  # argument check
+                    raise AnalysisError(f"R18d: test `{norm(st.test, 40)}` in Duration.encode is not the sign test on the days field")
+                forks += 1
+                taken = st.body if nt == negative else st.orelse
+                run_path(taken, env, negative)
+        return env
+
+    for negative in (True, False):
+        env = run_path(body[:upto], {}, negative)
+        results[negative] = (env.get(mag), next((v for k, v in env.items() if isinstance(v, str)), None))
+    if forks == 0:
+        ctx.instance("R18d", f"{f.file}:{f.ident}", "sign test on the days field", ok=False, line=f.node.lineno)
+        ctx.report("R18d", f, f.node, "no `days < 0` test", "Duration.encode does not distinguish negative durations")
+        return
+    for negative, want, wsign in ((True, -T, "-"), (False, T, "")):
+        got, sg = results[negative]
+        ok = got is not None and got == want and sg == wsign
+        ctx.instance("R18d", f"{f.file}:{f.ident}", f"days {'< 0' if negative else '>= 0'}: `{mag}` = {got!r}, sign {sg!r} (must be {want!r}, {wsign!r})", ok=ok, nontrivial=True, line=split[0].lineno)
+        if not ok:
+            ctx.report("R18d", f, split[0], f"for days {'< 0' if negative else '>= 0'}: {mag} = {got!r}, sign {sg!r}",
+                       f"Duration.encode splits {got!r} into hours/minutes/seconds for a {'negative' if negative else 'non-negative'} timedelta, but the value is "
+                       f"{'-' if negative else ''}(86400000000*D + 1000000*S + U) with 0 <= S < 86400: e.g. -1 hour is days=-1, seconds=82800 and must encode as -PT01H00M00S")
+
+
 def run(ctx):
     r18a(ctx)
     r18b(ctx)
     r18c(ctx)
+    r18d(ctx)
 
 
 from ..selftest import Seed, unparse_seed  # noqa: E402
@@ -333,6 +440,9 @@ from ..selftest import Seed, unparse_seed  # noqa: E402
 _DT = "src/odfdo/datatype.py"
 _CO = "src/odfdo/utils/color.py"
 SEEDS = [
+    Seed("Duration.encode negates the days field only", "fault", _DT, '        days = value.days\n        if days < 0:\n            microseconds = -(\n                (days * 24 * 60 * 60 + value.seconds) * 1000000 + value.microseconds\n            )\n            sign = "-"\n        else:\n            microseconds = (\n                days * 24 * 60 * 60 + value.seconds\n            ) * 1000000 + value.microseconds\n            sign = ""\n', '        days = value.days\n        sign = ""\n        if days < 0:\n            days = -days\n            sign = "-"\n        microseconds = (\n            days * 24 * 60 * 60 + value.seconds\n        ) * 1000000 + value.microseconds\n', "R18d"),
+    Seed("Duration.encode forgets the minus sign", "fault", _DT, '        days = value.days\n        if days < 0:\n            microseconds = -(\n                (days * 24 * 60 * 60 + value.seconds) * 1000000 + value.microseconds\n            )\n            sign = "-"\n        else:\n            microseconds = (\n                days * 24 * 60 * 60 + value.seconds\n            ) * 1000000 + value.microseconds\n            sign = ""\n', '        days = value.days\n        if days < 0:\n            microseconds = -(\n                (days * 24 * 60 * 60 + value.seconds) * 1000000 + value.microseconds\n            )\n            sign = ""\n        else:\n            microseconds = (\n                days * 24 * 60 * 60 + value.seconds\n            ) * 1000000 + value.microseconds\n            sign = ""\n', "R18d"),
+    Seed("Duration.encode computes the total first, then its absolute value", "neutral", _DT, '        days = value.days\n        if days < 0:\n            microseconds = -(\n                (days * 24 * 60 * 60 + value.seconds) * 1000000 + value.microseconds\n            )\n            sign = "-"\n        else:\n            microseconds = (\n                days * 24 * 60 * 60 + value.seconds\n            ) * 1000000 + value.microseconds\n            sign = ""\n', '        microseconds = (value.days * 86400 + value.seconds) * 1000000 + value.microseconds\n        sign = ""\n        if microseconds < 0:\n            microseconds = -microseconds\n            sign = "-"\n'),
     Seed("Duration.decode loses its rejecting arm", "fault", _DT,
          '            elif c not in "-PT":\n                raise ValueError(f"duration not valid {data!r}")\n', "", "R18a"),
     Seed("DURATION_FORMAT writes lower-case s", "fault", _DT, '"PT%02dH%02dM%02dS"', '"PT%02dH%02dM%02ds"', "R18b"),
